@@ -301,6 +301,18 @@ func c04Rollback(c *eng.Ctx, k *kvAnalysis) {
 					}
 					return false
 				}
+				// a compensator inside an undo literal has run, on the failure
+				// path, before the save helper returned
+				inCall := false
+				for _, r := range k.byFn[f] {
+					if r.Rollback == s && r.ViaCallback && isComp(r.In) {
+						inCall = true
+					}
+				}
+				if inCall {
+					c.Ok("R-C04-3", f, w.In.Pos(), site, "undone by the literal the save helper runs on its failure path")
+					continue
+				}
 				// from the save call, following only the failure edge, can a return be reached without a compensator?
 				hit2, path := eng.Search(f, s, eng.AssumeErr(ev, false), isComp, eng.IsReturn)
 				want := "on the err != nil edge of the save, every path to the return undoes this write (insert<->delete of the same key, store of the previous value, +c<->-c)"
@@ -366,6 +378,10 @@ func c04Gen(c *eng.Ctx, k *kvAnalysis) {
 			}
 			if call, _ := eng.TupleCall(v); call != nil {
 				if cal := eng.Callee(&call.Call); cal != nil && k.saveFns[eng.Unwrap(cal)] {
+					ok = true
+				}
+				// ... or the file write itself, inside the save function
+				if isFileMutatingCall(&call.Call) {
 					ok = true
 				}
 			}
